@@ -363,7 +363,7 @@ Proof.
   intros l p. split.
   - intros H o Ho E. assert (existsb (fun o => Scope.prefix_eqb (fst o) p) l = true); [|congruence].
     apply existsb_exists. exists o; split; auto. apply prefix_eqb_eq; assumption.
-  - intros H. destruct (existsb _ l) eqn:E; auto.
+  - intros H. destruct (existsb (fun o => Scope.prefix_eqb (fst o) p) l) eqn:E; auto.
     apply existsb_exists in E. destruct E as [o [Ho E]]. apply prefix_eqb_eq in E.
     exfalso; eapply H; eauto.
 Qed.
@@ -407,3 +407,261 @@ Proof.
   apply (Hy x Hx). congruence.
 Qed.
 Print Assumptions scope_prefixes_unique.
+
+(* ---- push_ns ---- *)
+
+Lemma find_ns_spec : forall text vals name uri i idx,
+  find_ns text vals name uri i = Some idx ->
+  exists v, i <= idx /\ nth_error vals (N.to_nat (idx - i)) = Some v /\
+            ns_name_bytes text v = name /\ storage_bytes text (ns_uri v) = uri.
+Proof.
+  induction vals as [|v r IH]; intros name uri i idx H; cbn [find_ns] in H; [discriminate|].
+  destruct (opt_str_eqb (ns_name_bytes text v) name &&
+            bytes_eqb (storage_bytes text (ns_uri v)) uri) eqn:E.
+  - inversion H; subst. apply andb_true_iff in E. destruct E as [E1 E2].
+    apply opt_str_eqb_eq in E1. apply bytes_eqb_eq in E2.
+    exists v. rewrite N.sub_diag. cbn. repeat split; auto. lia.
+  - apply IH in H. destruct H as [v' [H1 [H2 [H3 H4]]]].
+    exists v'. repeat split; auto; [lia|].
+    replace (N.to_nat (idx - i)) with (S (N.to_nat (idx - (i + 1)))) by lia. exact H2.
+Qed.
+
+Lemma nth_error_nth_N : forall A (l : list A) i x,
+  nth_error l (N.to_nat i) = Some x -> nth_N l i = Some x.
+Proof.
+  intros A l i x H. unfold nth_N, len_N.
+  assert (N.to_nat i < length l)%nat by (apply nth_error_Some; congruence).
+  destruct (N.of_nat (length l) <=? i) eqn:E; [lia|assumption].
+Qed.
+
+(* appending one entry to the tree order (the values only grow) *)
+Lemma tree_append : forall text d d' vi x,
+  ns_ok d ->
+  d_ns_tree d' = d_ns_tree d ++ [vi] ->
+  len_N (d_ns_values d) <= len_N (d_ns_values d') ->
+  (forall i, i < len_N (d_ns_values d) -> nth_N (d_ns_values d') i = nth_N (d_ns_values d) i) ->
+  entry text (d_ns_values d') vi = Some x ->
+  ns_ok d' /\ len_N (d_ns_tree d') = len_N (d_ns_tree d) + 1 /\
+  binding_at text d' (len_N (d_ns_tree d)) = Some x /\
+  (forall p, p < len_N (d_ns_tree d) -> binding_at text d' p = binding_at text d p).
+Proof.
+  intros text d d' vi x Hok Ht Hl Hv He.
+  assert (Hvi : vi < len_N (d_ns_values d')).
+  { unfold entry in He. destruct (nth_N (d_ns_values d') vi) eqn:E; [|discriminate].
+    eapply nth_N_Some_lt; eassumption. }
+  repeat split.
+  - intros p vj H. rewrite Ht in H.
+    destruct (p <? len_N (d_ns_tree d)) eqn:E.
+    + rewrite nth_N_app_l in H by lia. apply Hok in H. lia.
+    + pose proof (nth_N_Some_lt _ _ _ _ H) as L. rewrite len_N_app in L.
+      change (len_N [vi]) with 1 in L.
+      assert (p = len_N (d_ns_tree d)) by lia. subst p.
+      rewrite nth_N_app_len in H. inversion H; subst; assumption.
+  - rewrite Ht, len_N_app. reflexivity.
+  - rewrite binding_at_entry, Ht, nth_N_app_len. exact He.
+  - intros p Hp. rewrite !binding_at_entry, Ht, nth_N_app_l by assumption.
+    destruct (nth_N (d_ns_tree d) p) as [vj|] eqn:E; [|reflexivity].
+    apply Hok in E. unfold entry. rewrite Hv by assumption. reflexivity.
+Qed.
+
+(* push_ns is transparent: it appends exactly the binding (name, uri) to the tree order, and
+   changes no earlier entry *)
+Theorem push_ns_appends : forall text name uri d d', ns_ok d ->
+  push_ns text name uri d = Ok d' ->
+  ns_ok d' /\ len_N (d_ns_tree d') = len_N (d_ns_tree d) + 1 /\
+  binding_at text d' (len_N (d_ns_tree d)) =
+    Some (match name with Some s => Some (str_bytes text s) | None => None end, storage_bytes text uri) /\
+  (forall p, p < len_N (d_ns_tree d) -> binding_at text d' p = binding_at text d p).
+Proof.
+  intros text name uri d d' Hok H. unfold push_ns in H.
+  destruct (find_ns text (d_ns_values d)
+              (match name with Some s => Some (str_bytes text s) | None => None end)
+              (storage_bytes text uri) 0) as [idx|] eqn:F.
+  - inversion H; subst d'; clear H.
+    apply find_ns_spec in F. destruct F as [v [_ [F1 [F2 F3]]]].
+    rewrite N.sub_0_r in F1. apply nth_error_nth_N in F1.
+    eapply tree_append; cbn [d_ns_tree d_ns_values]; eauto; try lia.
+    unfold entry. rewrite F1, F2, F3. reflexivity.
+  - destruct (ns_values_limit <? len_N (d_ns_values d)) eqn:L; [discriminate|].
+    inversion H; subst d'; clear H.
+    eapply tree_append; cbn [d_ns_tree d_ns_values]; eauto.
+    + rewrite len_N_app. lia.
+    + intros i Hi. apply nth_N_app_l; assumption.
+    + unfold entry. rewrite nth_N_app_len. reflexivity.
+Qed.
+Print Assumptions push_ns_appends.
+
+(* the limit: the 65537th distinct pair is refused, before that no index is truncated *)
+Theorem push_ns_limit : forall text name uri d,
+  find_ns text (d_ns_values d) (match name with Some s => Some (str_bytes text s) | None => None end) (storage_bytes text uri) 0 = None ->
+  ns_values_limit < len_N (d_ns_values d) ->
+  push_ns text name uri d = Err NamespacesLimitReached.
+Proof.
+  intros text name uri d F L. unfold push_ns. rewrite F.
+  destruct (ns_values_limit <? len_N (d_ns_values d)) eqn:E; [reflexivity|lia].
+Qed.
+Print Assumptions push_ns_limit.
+
+Theorem ns_values_limit_is : ns_values_limit = 65535.
+Proof. reflexivity. Qed.
+Print Assumptions ns_values_limit_is.
+
+(* complement of push_ns_limit: below the limit push_ns succeeds, and every index it stores
+   is at most 65535, i.e. fits the u16 of the source *)
+Lemma push_ns_below_limit : forall text name uri d,
+  len_N (d_ns_values d) <= ns_values_limit -> exists d', push_ns text name uri d = Ok d'.
+Proof.
+  intros text name uri d L. unfold push_ns.
+  destruct (find_ns _ _ _ _ _); [eauto|].
+  destruct (ns_values_limit <? len_N (d_ns_values d)) eqn:E; [lia|eauto].
+Qed.
+
+(* ---- resolve_namespaces ---- *)
+
+(* what the copying loop computes: a parent binding is copied unless its prefix is already
+   in the element's range -- own declarations AND bindings copied so far *)
+Fixpoint copy_loop (cur inh : list Scope.binding) : list Scope.binding :=
+  match inh with
+  | [] => cur
+  | x :: r => if existsb (fun o => Scope.prefix_eqb (fst o) (fst x)) cur
+              then copy_loop cur r else copy_loop (cur ++ [x]) r
+  end.
+
+(* when the parent's bindings have distinct prefixes, this is the filter of scope_of *)
+Lemma copy_loop_filter : forall inh own acc,
+  Scope.prefixes_unique inh = true ->
+  (forall a y, In a acc -> In y inh -> fst a <> fst y) ->
+  copy_loop (own ++ acc) inh =
+  own ++ acc ++ filter (fun x => negb (existsb (fun o => Scope.prefix_eqb (fst o) (fst x)) own)) inh.
+Proof.
+  induction inh as [|x r IH]; intros own acc Hu Hd; cbn [copy_loop filter].
+  - rewrite app_nil_r; reflexivity.
+  - cbn [Scope.prefixes_unique] in Hu. apply andb_true_iff in Hu. destruct Hu as [Hx Hu].
+    apply negb_true_iff in Hx. rewrite existsb_prefix_false in Hx.
+    rewrite existsb_app.
+    assert (Hacc : existsb (fun o => Scope.prefix_eqb (fst o) (fst x)) acc = false).
+    { apply existsb_prefix_false. intros o Ho. apply Hd; [assumption|left; reflexivity]. }
+    rewrite Hacc, orb_false_r.
+    destruct (existsb (fun o => Scope.prefix_eqb (fst o) (fst x)) own); cbn [negb].
+    + apply IH; [assumption|]. intros a y Ha Hy; apply Hd; [assumption|right; assumption].
+    + rewrite <- app_assoc. rewrite IH; [rewrite <- app_assoc; reflexivity|assumption|].
+      intros a y Ha Hy. apply in_app_or in Ha. destruct Ha as [Ha|[<-|[]]].
+      * apply Hd; [assumption|right; assumption].
+      * intros E. apply (Hx y Hy). congruence.
+Qed.
+
+Lemma In_N_range : forall n a i, In i (N_range a n) -> a <= i /\ i < a + N.of_nat n.
+Proof.
+  induction n as [|n IH]; intros a i; cbn [N_range In]; [tauto|].
+  intros [<-|H]; [lia|]. apply IH in H. lia.
+Qed.
+
+Lemma bindings_of_list_ext : forall text d d' ps,
+  (forall p, In p ps -> binding_at text d' p = binding_at text d p) ->
+  bindings_of_list text d' ps = bindings_of_list text d ps.
+Proof.
+  induction ps as [|p r IH]; intros H; cbn [bindings_of_list]; [reflexivity|].
+  rewrite H by (left; reflexivity). rewrite IH; [reflexivity|].
+  intros q Hq; apply H; right; assumption.
+Qed.
+
+Lemma bindings_of_snoc : forall text d d' start vi x cur,
+  d_ns_tree d' = d_ns_tree d ++ [vi] -> d_ns_values d' = d_ns_values d ->
+  start <= len_N (d_ns_tree d) ->
+  bindings_of text d (start, len_N (d_ns_tree d)) = Some cur ->
+  entry text (d_ns_values d) vi = Some x ->
+  bindings_of text d' (start, len_N (d_ns_tree d')) = Some (cur ++ [x]).
+Proof.
+  intros text d d' start vi x cur Ht Hv Hs Hc He.
+  rewrite bindings_of_suffix in Hc by assumption.
+  rewrite bindings_of_suffix by (rewrite Ht, len_N_app; lia).
+  rewrite Ht, Hv, skipn_app.
+  replace (N.to_nat start - length (d_ns_tree d))%nat with 0%nat by (unfold len_N in Hs; lia).
+  cbn [skipn]. rewrite entries_app, Hc. cbn [entries]. rewrite He. reflexivity.
+Qed.
+
+Lemma resolve_ns_loop_spec : forall text start is d d' inh cur,
+  ns_ok d -> start <= len_N (d_ns_tree d) ->
+  (forall i, In i is -> i < start) ->
+  bindings_of_list text d is = Some inh ->
+  bindings_of text d (start, len_N (d_ns_tree d)) = Some cur ->
+  resolve_ns_loop text start is d = Ok d' ->
+  ns_ok d' /\ start <= len_N (d_ns_tree d') /\
+  bindings_of text d' (start, len_N (d_ns_tree d')) = Some (copy_loop cur inh).
+Proof.
+  induction is as [|i r IH]; intros d d' inh cur Hok Hs Hlt Hinh Hcur H;
+    cbn [resolve_ns_loop bindings_of_list] in *.
+  - inversion H; subst d'. inversion Hinh; subst inh. cbn [copy_loop]. auto.
+  - destruct (binding_at text d i) as [x|] eqn:Hx; [|discriminate].
+    destruct (bindings_of_list text d r) as [inh'|] eqn:Hr; [|discriminate].
+    inversion Hinh; subst inh; clear Hinh. cbn [copy_loop].
+    rewrite binding_at_entry in Hx.
+    destruct (nth_N (d_ns_tree d) i) as [vi|] eqn:Hi; [|discriminate].
+    cbn [bind] in H. rewrite (entry_prefix _ _ _ _ Hx) in H. cbn [bind] in H.
+    rewrite (ns_exists_spec text d start (fst x) cur Hs Hcur) in H. cbn [bind] in H.
+    assert (Hlt' : forall j, In j r -> j < start) by (intros j Hj; apply Hlt; right; assumption).
+    destruct (existsb (fun o => Scope.prefix_eqb (fst o) (fst x)) cur).
+    + cbn [bind] in H. eapply IH; eauto.
+    + unfold push_ref in H. rewrite Hi in H. cbn [bind] in H.
+      match type of H with resolve_ns_loop _ _ _ ?d1 = _ => set (d1' := d1) in * end.
+      destruct (tree_append text d d1' vi x Hok) as [Hok1 [Hlen1 [_ Hold]]];
+        [reflexivity|cbn; lia|reflexivity|exact Hx|].
+      apply (IH d1' d' inh' (cur ++ [x])); auto.
+      * lia.
+      * rewrite (bindings_of_list_ext text d d1'); [assumption|].
+        intros p Hp. apply Hold. apply Hlt' in Hp. lia.
+      * apply (bindings_of_snoc text d d1' start vi x cur); auto.
+Qed.
+
+Lemma short_range_ok : forall a e r, short_range a e = Ok r -> r = (a, e).
+Proof.
+  unfold short_range; intros a e r H.
+  destruct ((u32_max <? a) || (u32_max <? e)); [discriminate|]. inversion H; reflexivity.
+Qed.
+
+(* scopes_refine: the element's range denotes own declarations followed by the inherited, not
+   re-declared bindings.
+   ADAPTED (see the report): the hypothesis that the parent's bindings have pairwise distinct
+   prefixes is necessary; see scopes_refine_needs_unique below. *)
+Theorem scopes_refine : forall text c r c' pnd pns own inherited,
+  ns_ok (c_doc c) ->
+  nth_N (d_nodes (c_doc c)) (c_parent_id c) = Some pnd ->
+  (match nd_kind pnd with KElement _ _ _ nss => pns = nss | _ => pns = (0, 0) end) ->
+  snd pns <= c_ns_start_idx c -> c_ns_start_idx c <= len_N (d_ns_tree (c_doc c)) ->
+  bindings_of text (c_doc c) pns = Some inherited ->
+  Scope.prefixes_unique inherited = true ->
+  bindings_of text (c_doc c) (c_ns_start_idx c, len_N (d_ns_tree (c_doc c))) = Some own ->
+  resolve_namespaces text c = Ok (r, c') ->
+  ns_ok (c_doc c') /\ bindings_of text (c_doc c') r = Some (Scope.scope_of own inherited).
+Proof.
+  intros text c r c' pnd pns own inherited Hok Hp Hk Hpe Hs Hinh Hu Hown H.
+  unfold resolve_namespaces in H. rewrite Hp in H. cbn [bind] in H.
+  assert (Hroot : pns = (0, 0) ->
+    (let! r0 := short_range (c_ns_start_idx c) (len_N (d_ns_tree (c_doc c))) in Ok (r0, c))
+      = Ok (r, c') ->
+    ns_ok (c_doc c') /\ bindings_of text (c_doc c') r = Some (Scope.scope_of own inherited)).
+  { intros -> H0. inv_bind H0. apply short_range_ok in Hb. inversion Hk0; subst.
+    split; [assumption|]. cbn in Hinh. inversion Hinh; subst.
+    unfold Scope.scope_of. cbn [filter]. rewrite app_nil_r. assumption. }
+  destruct (nd_kind pnd) as [|ns_idx local attrs nss| | |]; auto.
+  subst nss.
+  destruct (c_ns_start_idx c =? len_N (d_ns_tree (c_doc c))) eqn:E.
+  - (* nothing declared: the parent's range *)
+    inversion H; subst. split; [assumption|].
+    apply N.eqb_eq in E. rewrite E in Hown.
+    unfold bindings_of in Hown; cbn [fst snd] in Hown. rewrite N.sub_diag in Hown.
+    cbn in Hown. inversion Hown; subst.
+    unfold Scope.scope_of. cbn [app existsb negb].
+    rewrite Hinh. f_equal. clear. induction inherited as [|x l IH]; cbn; congruence.
+  - destruct pns as [pa pe]. cbn [fst snd] in *.
+    inv_bind H. inv_bind Hk0. apply short_range_ok in Hb0. inversion Hk1; subst; clear Hk1.
+    cbn [c_doc set_doc].
+    unfold bindings_of in Hinh; cbn [fst snd] in Hinh.
+    destruct (resolve_ns_loop_spec text _ _ _ _ _ _ Hok Hs) with (2 := Hinh) (3 := Hown) (4 := Hb)
+      as [Hok' [Hs' Hres]].
+    { intros i Hi. apply In_N_range in Hi. lia. }
+    split; [assumption|]. rewrite Hres. f_equal.
+    rewrite <- (app_nil_r own) at 1.
+    rewrite copy_loop_filter; [reflexivity|assumption|intros ? ? []].
+Qed.
+Print Assumptions scopes_refine.
